@@ -72,6 +72,16 @@ func init() {
 		}
 		return def
 	}
+	verifhook.Block = func(point string) {
+		if s := kernel.Current; s != nil {
+			s.BlockBegin(point)
+		}
+	}
+	verifhook.Unblock = func() {
+		if s := kernel.Current; s != nil {
+			s.BlockEnd()
+		}
+	}
 	verifhook.Held = func(delta int) {
 		if s := kernel.Current; s != nil {
 			s.Held(delta)
